@@ -1,5 +1,6 @@
 mod core;
 mod gen_diff;
+mod gen_flags;
 mod gen_glob;
 mod gen_lookup;
 mod gen_lua;
@@ -81,6 +82,7 @@ fn main() -> anyhow::Result<()> {
             Ok(())
         }
         Some("glob") => core::write_out(&a.out, &gen_glob::rows(a.seed, a.n)),
+        Some("flags") => core::write_out(&a.out, &gen_flags::rows(a.seed, a.n)),
         Some("lookup") => core::write_out(&a.out, &gen_lookup::rows(a.seed, a.n)),
         Some("multi") => {
             let flags = a.rest.first().map(|s| s == "flags").unwrap_or(false);
